@@ -161,5 +161,38 @@ func minimise(t *testing.T, pd *PropDef, sc *Scenario, tape []int32, v Violation
 			}
 		}
 	}
+	// then the schedule: blocks of choices are replaced by 0 ("the ready task with the lowest
+	// id", "the first ready select case", "keep the order") while the same violation class
+	// persists; what remains non-zero in the tape is what the failure needs
+	tapeDeadline := time.Now().Add(6 * time.Second)
+	tape = append([]int32(nil), bestRes.Out.Tape...)
+	for block := len(tape) / 2; block >= 4 && time.Now().Before(tapeDeadline); block /= 2 {
+		for i := 0; i+block <= len(tape) && time.Now().Before(tapeDeadline); i += block {
+			zero := true
+			for _, v := range tape[i : i+block] {
+				if v != 0 {
+					zero = false
+					break
+				}
+			}
+			if zero {
+				continue
+			}
+			cand := append([]int32(nil), tape...)
+			for j := i; j < i+block; j++ {
+				cand[j] = 0
+			}
+			res, _, own, _ := runAndCheck(t, pd, best, cand)
+			if res.Out == nil || res.Out.Trouble != "" {
+				continue
+			}
+			for k := range own {
+				if own[k].Class == v.Class && own[k].Prop == v.Prop {
+					tape, bestRes, bv = append([]int32(nil), res.Out.Tape...), res, &own[k]
+					break
+				}
+			}
+		}
+	}
 	return best, bestRes.Out.Tape, bestRes, *bv
 }
